@@ -119,6 +119,7 @@ struct World {
     reuse_canaries_checked: u64,
     foreign_pages: Vec<(Arena, u8)>,
     foreign_pages_checked: u64,
+    refused_attempts: u64,
 }
 
 fn exec_anon_pages() -> BTreeSet<usize> {
@@ -201,6 +202,7 @@ pub fn run(ctx: &Ctx) {
         reuse_canaries_checked: 0,
         foreign_pages: Vec::new(),
         foreign_pages_checked: 0,
+        refused_attempts: 0,
     };
     // warm-up lifetime so that lazily created process state (thread-local storage, allocator arenas)
     // exists before the baselines are taken
@@ -407,6 +409,8 @@ fn summary_json(w: &World, decided: u64) -> J {
         .n("maps_page_set_checks", w.maps_checks)
         .n("canaries", w.canaries.len())
         .n("canaries_placed_at_freed_trampoline_addresses_and_checked", w.reuse_canaries_checked)
+        .n("refused_installations_inside_histories", w.refused_attempts)
+        .n("foreign_pages_on_early_freed_trampolines_checked", w.foreign_pages_checked)
         .o("counters", ip::counters_json())
 }
 
@@ -459,6 +463,21 @@ fn flush_check(w: &mut World, before: &[Vec<u8>], after: &[Vec<u8>], new_maps: &
     None
 }
 
+#[inline(never)]
+fn wrong_shape_fake(a: u64, b: u64, c: u64) -> u64 {
+    std::hint::black_box(a ^ b ^ c)
+}
+
+/// an installation the library has to refuse; true if it was (a panic was raised)
+fn refused_attempt(inj: &mut InjectorPP, t: &Target, variant: usize) -> bool {
+    std::panic::catch_unwind(std::panic::AssertUnwindSafe(|| match variant % 3 {
+        0 => inj.when_called((t.mk)()).will_execute_raw(injectorpp::func!(wrong_shape_fake, fn(u64, u64, u64) -> u64)),
+        1 => inj.when_called((t.mk)()).will_execute(injectorpp::fake!(func_type: fn(_a: u8, _b: u8) -> u64, returns: 1)),
+        _ => inj.when_called((t.mk)()).will_return_boolean(true),
+    }))
+    .is_err()
+}
+
 fn lifetime(w: &mut World, mons: &Mons, p: &Plan, rng: &mut Rng) -> (Verdict, String, J) {
     let _whole = ip::LibScope::enter();
     w.lifetimes += 1;
@@ -484,6 +503,29 @@ fn lifetime(w: &mut World, mons: &Mons, p: &Plan, rng: &mut Rng) -> (Verdict, St
             if p.exit == Exit::UserPanic && p.panic_at == si {
                 // scope exit by unwinding after `si` installs
                 return (inj, true);
+            }
+            // one step in six is preceded by an installation the library must refuse (wrong signature, boolean
+            // forcing of a non-bool function): caught by the test body, the history carries on. It changes
+            // nothing: no byte, no mapping kept, the fakes installed so far stay in effect
+            if s.variant % 6 == 5 {
+                let rt = &w.pool.targets[(s.target + s.variant) % w.pool.targets.len()];
+                if matches!(rt.fam, Fam::I32 | Fam::Gen8 | Fam::Gen16 | Fam::Gen32 | Fam::LibcInt | Fam::LibcLong) {
+                    let led0 = ip::ledger_len();
+                    let img0 = img(rt.addr);
+                    let refused = ip::lib(|| refused_attempt(&mut inj, rt, s.variant / 6));
+                    w.refused_attempts += 1;
+                    if viol.is_none() {
+                        if !refused && mons.c02 {
+                            // not this property's business whether it is refused, but an accepted installation the
+                            // model does not know would make every later verdict meaningless: stop the lifetime
+                            *viol = Some(("c02:history-unusable:mismatching-installation-accepted".into(), J::new().s("target", &rt.name)));
+                        } else if mons.c12 && ip::ledger_len() != led0 {
+                            *viol = Some(("c12:refused-installation-kept-a-mapping".into(), J::new().s("target", &rt.name).n("ledger_before", led0).n("ledger_after", ip::ledger_len())));
+                        } else if (mons.c02 || mons.c03) && img(rt.addr) != img0 {
+                            *viol = Some((if mons.c02 { "c02:refused-installation-changed-the-function" } else { "c03:refused-installation-changed-bytes" }.into(), J::new().s("target", &rt.name)));
+                        }
+                    }
+                }
             }
             let before = if mons.c17 { Some(watch_images(w)) } else { None };
             let led_before = ip::ledger_snapshot();
